@@ -74,11 +74,13 @@ def make_spec(dist, asyn, with_l3, expr_guard=False, only=None):
              provided=tuple(provided), listeners=tuple(listeners))
 
 
-def listener_class(label, dist, asyn):
+def listener_class(label, dist, asyn, plain=()):
+    """plain: names that stay plain functions even on the async engine (the operands of an
+    expression guard - coroutine operands are C05's known finding)."""
     ns = {"_prov": label}
     for nm, provs in dist.items():
         if label in provs:
-            ns[nm] = _mk(nm, "a" if asyn else "")
+            ns[nm] = _mk(nm, "a" if (asyn and nm not in plain) else "")
     return type(label, (), ns)
 
 
@@ -150,7 +152,8 @@ def run_scenario(dist, cfg, attach_at, vals, reattach=0, expr_guard=False, two=F
     if m0 is None or m1 is None:
         return None, 0
     built = build(m0)
-    l3cls = listener_class("L3", dist, asyn and only in (None, "L3"))
+    l3cls = listener_class("L3", dist, asyn and only in (None, "L3"),
+                           plain=("ok", "ready") if expr_guard else ())
     if lkind:
         for lab in ("L1", "L2"):
             built.listener_cls[lab] = _eq_variant(built.listener_cls[lab], lkind)
@@ -203,6 +206,8 @@ def run_scenario(dist, cfg, attach_at, vals, reattach=0, expr_guard=False, two=F
                 for _ in range(1 + (reattach >= 1)):
                     p.impl.sm.add_listener(l3)
                 p.ref.m = m1
+                # expression guard whose names the late listener provides: see Ref._eval_expr
+                p.ref.lenient_expr_reads = bool(expr_guard)
                 p.ref.trans_of = {}
                 for ti, t in enumerate(m1.trans):
                     p.ref.trans_of.setdefault(t.src, []).append((ti, t))
@@ -693,7 +698,9 @@ def classify(msg, dist, vals, kind, cfg, attach_at):
     # root causes that are known on the pinned tree get a precise signature
     guard_names = [nm for nm in ("ok", "blocked", "ready") if nm in dist]
     multi = [nm for nm in guard_names if len(dist[nm]) > 1]
-    if kind == "expr" and any("L3" in dist[nm] for nm in dist):
+    l3_names = [nm for nm in ("ok", "ready") if "L3" in dist.get(nm, ())]
+    if kind == "expr" and len(l3_names) == 1:
+        # the late listener provides only one of the two names of the expression
         sig["category"] = "late-listener-provides-part-of-expression"
     elif "blocked" in multi and len({vals.get((p, "blocked")) for p in dist["blocked"]}) > 1:
         sig["category"] = "unless-guard-on-several-providers-disagreeing"
